@@ -336,6 +336,16 @@ impl Workload {
             .get(&FeWorkIdentifier::Glyph(glyph_name.clone()));
         let be_id = AnyWorkId::Be(BeWorkIdentifier::GlyfFragment(glyph_name));
 
+        // Glyph order can start as soon as the last IR glyph is done, which may be before we get
+        // to handle that glyph's completion here. If it is no longer waiting to start it may
+        // already have rewritten (e.g. decomposed) the glyph we just read, so what we see can't
+        // tell us whether the BE glyph has to wait for it.
+        let glyph_order_may_have_run = self
+            .jobs_pending
+            .get(&AnyWorkId::Fe(FeWorkIdentifier::GlyphOrder))
+            .map(|job| job.running)
+            .unwrap_or(true);
+
         // If the inputs to the BE glyph didn't change it won't be pending
         let Some(be_job) = self.jobs_pending.get_mut(&be_id) else {
             return;
@@ -366,7 +376,7 @@ impl Workload {
         }
 
         // We don't *have* to wait on glyph order, but if we don't it delays the critical path
-        if has_components {
+        if has_components || glyph_order_may_have_run {
             deps = deps.variant(FeWorkIdentifier::GlyphOrder);
         }
 
